@@ -1,11 +1,19 @@
 #!/usr/bin/env python3
 """Differential self-test of tools/py2coq.py (the translator is trusted: this is what backs it).
 
-Synthetic functions that exercise every construct of the supported subset - and the real artap
-functions translated by the checks - are run by CPython on generated inputs; the binary64 instance
-of the generated definition is evaluated by Coq (`vm_compute`) on the same inputs and the results
-are compared bit for bit (an exception in Python = `None` in Coq).  A second list holds sources that
-MUST be rejected.
+Synthetic functions that exercise every construct of the supported subset are run by CPython on generated
+inputs; the binary64 instance of the generated definition is evaluated by Coq (`vm_compute`) on the same
+inputs and the results are compared bit for bit (an exception in Python = `None` in Coq).
+  suite 1 (SRC):  the numeric / list-scan subset (zip / enumerate / range loops, return inside loops, continue,
+                  index errors, % by zero, min / max, and / or, tuple joins, lifted continuations, comprehensions)
+  suite 2 (SRC2): objects and lists - records with accessors, in-place list operations (append, extend, remove,
+                  del, item assignment, reverse, xs[:n], copies) on fresh lists and on in-out parameters, break,
+                  integer indices (negative = from the end), pick / sample oracles (random.choice / random.sample
+                  replaced by scripted stubs), optional values and None tests, named flag expressions, observable
+                  oracle calls (event log), dictionaries of lists, min / max / sorted with keys, cmp_to_key, while
+                  loops with fuel, tuple assignment, divmod, int -> float mixing, constructor oracles, skipped
+                  statements, body mode (the body of a loop over objects as a function of one object)
+A third list (REJECT) holds sources that MUST be rejected.
 
     /venv/bin/python tools/py2coq_selftest.py          (exit 0 = all agree; needs coqc and /verif/coq built)
 """
@@ -139,12 +147,9 @@ TYPES = {
 }
 
 REJECT = {
-    "while loop": "def f(x):\n    while x > 0.0:\n        x = x - 1.0\n    return x\n",
     "try": "def f(x):\n    try:\n        return x\n    except ValueError:\n        return x\n",
     "global read": "EPS = 1.0\ndef f(x):\n    return x + EPS\n",
     "method call": "def f(x):\n    return x.real\n",
-    "subscript store": "def f(x):\n    y = [x]\n    y[0] = x\n    return x\n",
-    "break": "def f(xs):\n    for x in xs:\n        break\n    return 1.0\n",
     "chained comparison": "def f(x):\n    return 0.0 < x < 1.0\n",
     "fall off the end": "def f(x):\n    if x > 0.0:\n        return x\n",
     "unbound local": "def f(x):\n    if x > 0.0:\n        y = x\n    return y\n",
@@ -155,9 +160,325 @@ REJECT = {
     "alias of appended list": "def f(x):\n    a = [x]\n    b = a\n    a.append(x)\n    return b\n",
     "shadowed builtin": "from numpy import abs\ndef f(x):\n    return abs(x)\n",
     "unreachable": "def f(x):\n    return x\n    x = 1.0\n",
-    "iterated list rebound": "def f(xs):\n    s = 0.0\n    for i in range(len(xs)):\n        xs = xs[:-1]\n        s += xs[i]\n    return s\n",
 }
+REJECT.update({
+    "while without else only": "def f(x):\n    while x > 0.0:\n        x = x - 1.0\n    else:\n        x = 0.0\n    return x\n",
+    "modify a shared parameter": "def f(xs):\n    xs[0] = 1.0\n    return 1.0\n",
+    "alias then modify": "def f(xs):\n    ys = xs\n    ys.append(1.0)\n    return 1.0\n",
+    "remove from parameter": "def f(xs, x):\n    xs.remove(x)\n    return x\n",
+    "store modified list then modify": "def f(x):\n    a = [x]\n    b = []\n    b.append(a)\n    a.append(x)\n    return x\n",
+    "assign to enumerate index": "def f(xs):\n    s = 0.0\n    for i, x in enumerate(xs):\n        i = 0\n        s += x\n    return s\n",
+    "del slice": "def f(x):\n    a = [x, x]\n    del a[0:1]\n    return x\n",
+    "dict comprehension": "def f(xs):\n    d = {x: x for x in xs}\n    return 1.0\n",
+    "is on numbers": "def f(x):\n    if x is 1.0:\n        return x\n    return x\n",
+    "string literal": "def f(x):\n    s = 'a'\n    return x\n",
+    "sorted without key": "def f(xs):\n    ys = sorted(xs)\n    return 1.0\n",
+    "min of a list without key": "def f(xs):\n    return min(xs)\n",
+    "return in a value function without value": "def f(x):\n    if x > 0.0:\n        return\n    return x\n",
+    "attribute write not declared": "def f(x):\n    x.real = 1.0\n    return 1.0\n",
+    "with": "def f(x):\n    with open('a') as g:\n        pass\n    return x\n",
+    "lambda outside map / key": "def f(x):\n    g = lambda y: y\n    return x\n",
+})
 REJECT_TYPES = {"f": {"as": "f_gen", "returns": "T", "params": {"x": "T", "xs": "list T", "i": "nat"}}}
+
+
+
+# ----------------------------------------------------------------------------------------------
+# second suite: the constructs added for the object / list code (records, in-place list operations on
+# in-out parameters, break, picks / samples, optional values, flags, events, dictionaries, min / max /
+# sorted with keys, while with fuel, tuple assignment, divmod, int -> float mixing, body mode, skip)
+# An object of the record type `pt` is a SimpleNamespace(x, k, features={'w': ..}) in Python and the
+# triple (x, k, w) in Coq; accessors / oracles / pick indices are passed to the binary64 instance.
+# ----------------------------------------------------------------------------------------------
+from types import SimpleNamespace
+import functools
+
+SRC2 = """
+import random
+import functools
+
+def listops(xs, v, i):
+    ys = list(xs)
+    ys.append(v)
+    ys[i] = ys[i] + 1.0
+    ys[0] *= 2.0
+    zs = ys.copy()
+    zs.extend(xs)
+    del zs[i]
+    zs.remove(v)
+    zs.reverse()
+    return zs[:3]
+
+def first_big(xs, lim):
+    found = 0.0
+    seen = []
+    for x in xs:
+        if x > lim:
+            found = x
+            break
+        seen.append(x)
+    return found + len(seen)
+
+def drain(xs, x):
+    removed = 0
+    for index, y in enumerate(list(xs)):
+        if y > x:
+            del xs[index - removed]
+            removed += 1
+        elif y == x:
+            break
+    xs.append(x)
+    return removed > 0
+
+def back(xs, i, j):
+    return xs[i - j]
+
+def heavy(ps, lim):
+    out = []
+    for p in ps:
+        if p.features['w'] * p.x > lim and p.k != 2:
+            out.append(p.k)
+    return out
+
+def pick_far(ps, p):
+    near = []
+    for i in range(len(ps)):
+        if ps[i].x < p.x:
+            near.append(i)
+    if len(near) > 0:
+        del ps[random.choice(near)]
+    else:
+        ps.remove(random.choice(ps))
+    ps.append(p)
+    return
+
+def duel(ps):
+    if len(ps) == 1:
+        chosen = ps[0]
+    else:
+        pair = random.sample(ps, 2)
+        if pair[0].k < pair[1].k:
+            return pair[0]
+        if pair[0].x > pair[1].x:
+            chosen = pair[0]
+        else:
+            chosen = random.choice(pair)
+    return chosen
+
+class Box:
+    def cached(self, p):
+        value = None
+        if self.ready and 'hook' in dir(self):
+            value = self.hook(p)
+            if value is not None:
+                self.count += 1
+        if value is None:
+            value = self.compute(p)
+        return value
+
+    def bump_all(self, ps):
+        for p in ps:
+            if p.x > self.limit:
+                continue
+            p.x = p.x + 1.0
+            p.features['w'] *= 2.0
+            for i in range(len(p.vec)):
+                p.vec[i] = p.vec[i] + p.x
+
+def store(x):
+    y = [x]
+    y[0] = x + 1.0
+    return y[0]
+
+def rebound(xs):
+    s = 0.0
+    for i in range(len(xs)):
+        xs = xs[:-1]
+        s += xs[i]
+    return s
+
+def groups(ps):
+    d = {}
+    for p in ps:
+        if p.k not in d:
+            d[p.k] = []
+        d[p.k].append(p.x)
+    return d
+
+def extremes(ps, up):
+    if up:
+        best = max(ps, key=lambda q: q.x)
+    else:
+        best = min(ps, key=lambda q: q.features['w'])
+    return best
+
+def by_weight(ps, n, rev):
+    r = sorted(ps, key=lambda q: q.features['w'])
+    if rev:
+        r.reverse()
+    return r[:n]
+
+def order(p, q):
+    if p.k == q.k:
+        if -p.x < -q.x:
+            return -1
+        elif -p.x > -q.x:
+            return 1
+        return 0
+    if p.k < q.k:
+        return -1
+    return 1
+
+def ranked(ps, n):
+    return sorted(ps, key=functools.cmp_to_key(order))[:n]
+
+def digits(n, base):
+    out = []
+    for i in range(n):
+        acc, scale = 0., 1.
+        while i > 0:
+            i, r = divmod(i, base)
+            scale *= base
+            acc += r / scale
+            if scale > 100.0:
+                break
+        out.append(acc)
+    return out
+
+def countdown(x, step):
+    n = 0
+    while x > 0.0:
+        x = x - step
+        n += 1
+        if n == 5:
+            continue
+    return x
+
+def shifts(p, tols, d):
+    kids = []
+    for i in range(len(p.vec)):
+        t = tols[i]
+        for sign in [-1, 1]:
+            v = p.vec.copy()
+            v[i] += sign * t
+            kids.append(make(v))
+            kids[-1].log.append(p)
+    total = 0.0
+    for kid in kids:
+        total += kid.x - d
+    return total
+
+"""
+
+PT = "pt"       # SimpleNamespace(x, k, features={'w': ..}, vec) <-> ((x, k), w, vec) in Coq
+
+
+def mkpt(rng):
+    return SimpleNamespace(x=rng.choice(GRID), k=rng.randrange(4), features={"w": rng.choice(GRID)},
+                           vec=[rng.choice(GRID) for _ in range(rng.choice([0, 1, 2, 3]))], log=[])
+
+
+def enc2(v, t):
+    if t == PT:
+        return "(%s, %s, %s, %s)" % (fl(v.x), "%d%%nat" % v.k, fl(v.features["w"]), enc2(v.vec, "list T"))
+    if t == "Z":
+        return "(%d)%%Z" % v
+    if t.startswith("list "):
+        return "[" + "; ".join(enc2(x, t[5:]) for x in v) + "]"
+    if t.startswith("opt "):
+        return "None" if v is None else "(Some %s)" % enc2(v, t[4:])
+    if t.startswith("prod "):
+        a, b = split2(t[5:])
+        return "(%s, %s)" % (enc2(v[0], a), enc2(v[1], b))
+    if t.startswith("dict "):
+        a, b = split2(t[5:])
+        return "[" + "; ".join("(%s, %s)" % (enc2(k_, a), enc2(x, b)) for k_, x in v.items()) + "]"
+    return enc(v, t)
+
+
+def split2(s):
+    """'(A) (B)' -> A, B"""
+    depth, i = 0, 0
+    assert s[0] == "("
+    for i, ch in enumerate(s):
+        depth += ch == "("
+        depth -= ch == ")"
+        if depth == 0:
+            break
+    return s[1:i], s[i + 1:].strip()[1:-1]
+
+
+def eqb2(t):
+    if t == PT:
+        return "pt_eqb"
+    if t == "Z":
+        return "Z.eqb"
+    if t.startswith("list "):
+        return "(leqb %s)" % eqb2(t[5:])
+    if t.startswith("opt "):
+        return "(oeqb %s)" % eqb2(t[4:])
+    if t.startswith("prod "):
+        a, b = split2(t[5:])
+        return "(peqb %s %s)" % (eqb2(a), eqb2(b))
+    if t.startswith("dict "):
+        a, b = split2(t[5:])
+        return "(leqb (peqb %s %s))" % (eqb2(a), eqb2(b))
+    return eqb(t)
+
+
+def gen2(t, rng):
+    if t == PT:
+        return mkpt(rng)
+    if t == "Z":
+        return rng.randrange(-3, 4)
+    if t.startswith("list "):
+        return [gen2(t[5:], rng) for _ in range(rng.choice([0, 1, 2, 3, 3, 4]))]
+    return gen(t, rng)
+
+
+ACC = {"f_pt_x": "(fun p : PT => fst (fst (fst p)))", "f_pt_k": "(fun p : PT => snd (fst (fst p)))",
+       "f_pt_features_w": "(fun p : PT => snd (fst p))", "f_pt_vec": "(fun p : PT => snd p)", "eqb_pt": "pt_eqb",
+       "of_nat": "(fun n : nat => PrimFloat.of_uint63 (Uint63.of_Z (Z.of_nat n)))"}
+RECS = {"pt": {"x": "T", "k": "nat", "features[\"w\"]": "T", "vec": "list T"}}
+
+# per function: spec entry, python driver (args dict, rng) -> (python result in the shape of the Coq result, extra
+# interface terms), result type for the comparison
+TYPES2 = {
+    "listops": {"spec": {"returns": "list T", "params": {"xs": "list T", "v": "T", "i": "nat"}}, "res": "list T"},
+    "first_big": {"spec": {"returns": "T", "params": {"xs": "list T", "lim": "T"}}, "res": "T"},
+    "drain": {"spec": {"returns": "bool", "params": {"xs": "list T", "x": "T"}, "writes": [["xs", "list T"]]},
+              "res": "prod (bool) (list T)", "post": lambda r, a: (r, a["xs"])},
+    "back": {"spec": {"returns": "T", "params": {"xs": "list T", "i": "nat", "j": "nat"}}, "res": "T"},
+    "heavy": {"spec": {"returns": "list nat", "records": RECS, "params": {"ps": "list pt", "lim": "T"}}, "res": "list nat"},
+    "pick_far": {"spec": {"returns": "writes", "records": RECS, "params": {"ps": "list pt", "p": "pt"},
+                          "writes": [["ps", "list pt"]], "picks": ["random.choice"]},
+                 "res": "list pt", "post": lambda r, a: a["ps"], "picks": 2},
+    "duel": {"spec": {"returns": "pt", "records": RECS, "params": {"ps": "list pt"}, "picks": ["random.choice"],
+                      "samples": ["random.sample"]}, "res": "pt", "picks": 1, "samples": 2},
+    "store": {"spec": {"returns": "T", "params": {"x": "T"}}, "res": "T"},
+    "rebound": {"spec": {"returns": "T", "params": {"xs": "list T"}}, "res": "T"},
+    "cached": {"cls": "Box", "spec": {"returns": "T", "opaque": ["P"], "params": {"p": "P"},
+                        "attrs": [["self.ready", "bool"], ["self.count", "nat"]], "writes": [["self.count", "nat"]],
+                        "flags": {"'hook' in dir(self)": "has_hook"},
+                        "oracles": [["self.hook", ["P"], "opt T"], ["self.compute", ["P"], "T"]],
+                        "events": ["self.hook", "self.compute"]},
+               "res": "prod (prod (T) (nat)) (list nat)"},
+    "groups": {"spec": {"returns": "dict nat list T", "records": RECS, "params": {"ps": "list pt"}}, "res": "dict (nat) (list T)"},
+    "extremes": {"spec": {"returns": "pt", "records": RECS, "params": {"ps": "list pt", "up": "bool"}}, "res": "pt"},
+    "by_weight": {"spec": {"returns": "list pt", "records": RECS, "params": {"ps": "list pt", "n": "nat", "rev": "bool"}}, "res": "list pt"},
+    "order": {"spec": {"returns": "Z", "records": RECS, "params": {"p": "pt", "q": "pt"}}, "res": "Z"},
+    "ranked": {"spec": {"returns": "list pt", "records": RECS, "params": {"ps": "list pt", "n": "nat"},
+                        "calls": {"order": "order"}}, "res": "list pt"},
+    "digits": {"spec": {"returns": "list T", "params": {"n": "nat", "base": "nat"}}, "res": "list T", "fuel": 12},
+    "countdown": {"spec": {"returns": "T", "params": {"x": "T", "step": "T"}}, "res": "T", "fuel": 9},
+    "shifts": {"spec": {"returns": "T", "records": RECS, "params": {"p": "pt", "tols": "list T", "d": "T"},
+                        "oracles": [["make", ["list T"], "pt", "constructor"]], "skip": ["kids[-1].log.append(p)"]},
+               "res": "T"},
+    "bump_all": {"cls": "Box", "tag": "body", "spec": {"mode": "body", "loop": "for p in ps", "sole": True, "objects": ["self"], "element": "pt",
+                          "records": RECS, "attrs": [["self.limit", "T"]],
+                          "writes": [["p.x", "T"], ["p.features[\"w\"]", "T"], ["p.vec", "list T"]]},
+                 "res": "prod (prod (T) (T)) (list T)"},
+}
 
 
 def fl(x):
@@ -206,6 +527,156 @@ def gen(t, rng):
     if t.startswith("list "):
         return [gen(t[5:], rng) for _ in range(rng.choice([0, 1, 2, 3, 3, 4]))]
     raise ValueError(t)
+
+
+
+TV = {"pt": "PT", "P": "unit"}
+PRELUDE2 = [
+    "Definition PT := (float * nat * float * list float)%type.",
+    "Definition peqb {A B} (ea : A -> A -> bool) (eb : B -> B -> bool) (a b : A * B) : bool := ea (fst a) (fst b) && eb (snd a) (snd b).",
+    "Definition pt_eqb : PT -> PT -> bool := peqb (peqb (peqb fbits_eqb Nat.eqb) fbits_eqb) (leqb fbits_eqb).",
+    "Definition py_pt_eq : PT -> PT -> bool := peqb (peqb (peqb PrimFloat.eqb Nat.eqb) PrimFloat.eqb) (leqb PrimFloat.eqb).",
+]
+EXC = (IndexError, ZeroDivisionError, ValueError, KeyError)
+
+
+def pt_of(v):
+    """Individual(v) of the `shifts` test: x = first coordinate (0.0 for an empty vector)"""
+    return SimpleNamespace(x=(v[0] if v else 0.0), k=0, features={"w": 0.0}, vec=list(v), log=[])
+
+
+def drive(f, entry, ns, rng):
+    """-> (interface terms {name: coq term}, argument terms [coq], expected python value or EXC marker)"""
+    import copy
+    sp = entry["spec"]
+    iface, none = dict(ACC), object()
+    iface["eqb_pt"] = "py_pt_eq"
+    rnd = ns["random"]
+    used = {}
+    K, A, B = rng.randrange(6), rng.randrange(6), rng.randrange(6)
+
+    def choice(seq):
+        if not seq:
+            raise IndexError
+        used["pick"] = K % len(seq)
+        return seq[used["pick"]]
+
+    def sample(seq, k):
+        if len(seq) < 2:
+            raise ValueError
+        i, j = A % len(seq), B % len(seq)
+        if i == j:
+            j = (i + 1) % len(seq)
+        used["smp"] = (i, j)
+        return [seq[i], seq[j]]
+    rnd.choice, rnd.sample = choice, sample
+    if f == "cached":
+        ready, has_hook, cnt = rng.random() < 0.6, rng.random() < 0.7, rng.randrange(3)
+        hv = rng.choice([None, None, 1.5, 0.0, -2.5])
+        cv = rng.choice(GRID)
+        log = []
+        me = SimpleNamespace(ready=ready, count=cnt, compute=lambda p: (log.append(2), cv)[1])
+        if has_hook:
+            me.hook = lambda p: (log.append(1), hv)[1]
+        r = ns["Box"].cached(me, "p")
+        iface["o_self_hook"] = "(fun _ : unit => %s)" % enc2(hv, "opt T")
+        iface["o_self_compute"] = "(fun _ : unit => %s)" % fl(cv)
+        return iface, ["tt", enc(ready, "bool"), enc(cnt, "nat"), enc(has_hook, "bool")], ((r, me.count), log)
+    if f == "bump_all":
+        p, lim = mkpt(rng), rng.choice(GRID)
+        q = copy.deepcopy(p)
+        ns["Box"].bump_all(SimpleNamespace(limit=lim), [q])
+        return iface, [enc2(p, PT), fl(lim)], ((q.x, q.features["w"]), q.vec)
+    if f == "shifts":
+        ns["make"] = pt_of
+        iface["o_make"] = "(fun v : list float => (match v with a :: _ => a | [] => 0%float end, 0%nat, 0%float, v))"
+    args = {nm: gen2(t.replace("list pt", "list " + PT).replace("pt", PT) if t in ("pt", "list pt") else t, rng)
+            for nm, t in sp["params"].items()}
+    if f in ("digits",):
+        args["base"] = rng.choice([0, 2, 2, 3, 10])
+        args["n"] = rng.randrange(9)
+    if f == "countdown":
+        args["step"] = rng.choice([0.5, 1.0, 1.5])
+    terms = [enc2(v, (PT if sp["params"][nm] == "pt" else "list " + PT if sp["params"][nm] == "list pt" else sp["params"][nm]))
+             for nm, v in args.items()]
+    if "fuel" in entry:
+        terms.append("%d%%nat" % entry["fuel"])
+    work_args = copy.deepcopy(args)
+    try:
+        r = ns[f](*[work_args[nm] for nm in sp["params"]])
+        exp = entry["post"](r, work_args) if "post" in entry else r
+    except EXC:
+        exp = EXC
+    for i in range(entry.get("picks", 0)):
+        iface["pick_%d" % (i + 1)] = "%d%%nat" % used.get("pick", 0)
+    if entry.get("samples"):
+        i, j = used.get("smp", (0, 1))
+        iface["smp_1_1"], iface["smp_1_2"] = "%d%%nat" % i, "%d%%nat" % j
+    return iface, terms, exp
+
+
+def run_suite2(rng, work):
+    import re
+    os.makedirs(os.path.join(work, "pkg2"))
+    open(os.path.join(work, "pkg2", "m.py"), "w").write(SRC2)
+    types, functions = {}, []
+    for f, entry in TYPES2.items():
+        ty = dict(entry["spec"])
+        ty["as"] = f + "_gen"
+        item = [entry.get("cls", ""), f] + ([entry["tag"]] if "tag" in entry else [])
+        functions.append(item)
+        types[(entry["cls"] + "." if "cls" in entry else "") + f + ("#" + entry["tag"] if "tag" in entry else "")] = ty
+    text, _ = py2coq.translate_spec(work, {"source": "pkg2/m.py", "module": "SelfGen2", "functions": functions, "types": types})
+    open(os.path.join(work, "SelfGen2.v"), "w").write(text)
+    ns = {}
+    exec(compile(SRC2, "m2.py", "exec"), ns)
+    lines = ["From Coq Require Import List ZArith Bool Arith Floats Uint63.", "From Artap Require Import Base.FloatInst.",
+             "From ArtapGen Require Import SelfGen2.", "Import ListNotations.", "Open Scope float_scope.",
+             "Fixpoint leqb {A} (e : A -> A -> bool) (a b : list A) : bool := match a, b with [] , [] => true "
+             "| x :: a', y :: b' => e x y && leqb e a' b' | _, _ => false end.",
+             "Definition oeqb {A} (e : A -> A -> bool) (a b : option A) : bool := match a, b with Some x, Some y => e x y "
+             "| None, None => true | _, _ => false end."] + PRELUDE2
+    n_cases, n_exc = 0, 0
+    for f, entry in TYPES2.items():
+        m = re.search(r"Definition %s_gen_f((?: \{\w+ : Type\})*) (.*?):= @" % f, text)
+        if not m:
+            raise SystemExit("no binary64 instance generated for %s" % f)
+        tvars = re.findall(r"\{(\w+) : Type\}", m.group(1))
+        lam = re.findall(r"\((\w+) : ", m.group(2))
+        partial = "(option " in text.split("Definition %s_gen " % f)[1].split(":=")[0]
+        for _ in range(entry.get("cases", 120)):
+            iface, terms, exp = drive(f, entry, ns, rng)
+            if exp is EXC:
+                if not partial:
+                    raise SystemExit("%s raised but its translation is total" % f)
+                expc, n_exc = "None", n_exc + 1
+            else:
+                expc = enc2(exp, entry["res"])
+                if "nan" in expc:
+                    continue
+                expc = "(Some %s)" % expc if partial else expc
+            e = "(oeqb %s)" % eqb2(entry["res"]) if partial else eqb2(entry["res"])
+            call = "(%s_gen_f %s)" % (f, " ".join(["(%s:=%s)" % (tv, TV[tv]) for tv in tvars] + [iface[nm] for nm in lam] + terms))
+            lines.append("Eval vm_compute in (%s %s %s). (* %s *)" % (e, call, expc, f))
+            n_cases += 1
+    open(os.path.join(work, "cases2.v"), "w").write("\n".join(lines) + "\n")
+    flags = ["-Q", os.path.join(VERIF, "coq", "theories"), "Artap", "-Q", work, "ArtapGen", "-w", "-inexact-float,-notation-overridden"]
+    for fn in ("SelfGen2.v", "cases2.v"):
+        pr = subprocess.run(["coqc"] + flags + [os.path.join(work, fn)], capture_output=True, text=True, timeout=900)
+        if pr.returncode != 0:
+            print("coqc failed on", fn, pr.stderr[-2500:])
+            return 1
+    outs = [l.strip() for l in pr.stdout.split("\n") if l.strip().startswith("= ")]
+    bad = [i for i, o in enumerate(outs) if o != "= true"]
+    print("positive (suite 2): %d cases on %d functions (%d expected exceptions), %d disagreements"
+          % (n_cases, len(TYPES2), n_exc, len(bad)))
+    evals = [l for l in lines if l.startswith("Eval")]
+    for i in bad[:8]:
+        print("  DISAGREE:", evals[i][:600])
+    if len(outs) != n_cases:
+        print("  expected %d results, got %d" % (n_cases, len(outs)))
+        return 1
+    return 1 if bad else 0
 
 
 def main():
@@ -275,7 +746,8 @@ def main():
         except py2coq.Unsupported as e:
             pass
     print("negative: %d sources, %d wrongly accepted %s" % (len(REJECT), len(missed), missed))
-    return 1 if bad or missed else 0
+    rc2 = run_suite2(rng, work)
+    return 1 if bad or missed or rc2 else 0
 
 
 if __name__ == "__main__":
